@@ -389,7 +389,7 @@ def c19_generate(seed, tier):
     n_env = rng.choice([2, 2, 3])
     family = cfgr.choice(["same_object", "same_spec", "same_params",
                           "same_params", "mixed", "mixed_layout",
-                          "bench_seeded_unseeded"])
+                          "bench_seeded_unseeded", "same_layout_rewired"])
     bench_name = cfgr.choice(configs.GEN_BENCH[:5])
     specs = []
     share = []
@@ -419,6 +419,29 @@ def c19_generate(seed, tier):
                 specs.append({"kind": "genbench", "name": bench_name,
                               "seed": None,
                               "np_seed": cfgr.randint(0, 2 ** 31 - 1)})
+            share.append(None)
+        elif family == "same_layout_rewired":
+            # same names, sizes and bounds (= same vector layout) but another
+            # topology and firewall
+            from . import docgen
+            if k == 0:
+                rw_doc = docgen.gen_doc(cfgr, max_subnets=5, step_limit=None)
+                while len(rw_doc["subnets"]) < 3:
+                    rw_doc = docgen.gen_doc(cfgr, max_subnets=5,
+                                            step_limit=None)
+                d = rw_doc
+            else:
+                d = docgen.clone(rw_doc)
+                n = len(d["subnets"])
+                T = docgen._topology(cfgr, n, cfgr.choice(
+                    ["chain", "star", "tree", "clique"]),
+                    cfgr.choice([1, 2]))
+                d["topology"] = T
+                d["firewall"] = {
+                    docgen.A(i, j): list(d["services"])
+                    for i in range(n + 1) for j in range(n + 1)
+                    if i != j and T[i][j] == 1}
+            specs.append({"kind": "yaml", "text": docgen.emit(d)})
             share.append(None)
         elif family == "mixed":
             # same layout signature is likely only for equal specs
@@ -470,7 +493,7 @@ def c19_generate(seed, tier):
         k = rng.choice(constructed)
         kind = rng.choice(["step"] * 10 + ["gstep", "gstep", "reset",
                                           "readable", "roundtrip", "mask",
-                                          "advert"])
+                                          "advert", "advert"])
         ops.append({"op": kind, "env": k, "_fill": True})
     while pending:
         k = pending.pop(0)
